@@ -180,6 +180,8 @@ func VerifHarness_C17_O3() {
 		n.core.hg.LastConsensusRound = new(int)
 		*n.core.hg.LastConsensusRound = lcr
 	}
+	// the application's state-change handler may fail at that very moment
+	vn.proxy.failStateChange = verifNondetBool("stateChangeHandlerFails")
 	n.checkSuspend()
 	tooMany := und-initial > limit*nvals
 	evicted := hasLCR && removed > 0 && removed > accepted && lcr >= removed
